@@ -137,7 +137,7 @@ fn res<T: MetadataValue>(r: Result<T, T>) -> String {
 
 fn opt(a: Option<Address>) -> String {
     match a {
-        Some(a) => (a.as_usize() - DATA_BASE).to_string(),
+        Some(a) => a.as_usize().wrapping_sub(DATA_BASE).to_string(),
         None => "none".to_string(),
     }
 }
